@@ -84,8 +84,11 @@ def canon(x, dirpath):
     s = json.dumps(x, sort_keys=True, ensure_ascii=False)
     if not dirpath:
         return s
-    from urllib.parse import quote
-    return s.replace(dirpath, "<DIR>").replace(quote(dirpath), "<DIR>")
+    import re
+    from urllib.parse import unquote
+    # URIs are percent-encoded, and not by one rule (the client's spelling and the server's differ for "R&D"): decode them
+    s = re.sub(r'file://[^"\\\s]*', lambda m: unquote(m.group(0)), s)
+    return s.replace(dirpath, "<DIR>")
 
 
 def describe(op):
